@@ -722,23 +722,33 @@ ComponentNameMap createComponentNamesMap(const ComponentPtr &component)
     return nameMap;
 }
 
-std::vector<UnitsPtr> referencedUnits(const ModelPtr &model, const UnitsPtr &units)
+std::vector<UnitsPtr> referencedUnits(const ModelPtr &model, const UnitsPtr &units, std::vector<UnitsPtr> &history)
 {
     std::vector<UnitsPtr> requiredUnits;
 
+    history.push_back(units);
     for (size_t index = 0; index < units->unitCount(); ++index) {
         const std::string ref = units->unitAttributeReference(index);
         if (!isStandardUnitName(ref)) {
             auto refUnits = model->units(ref);
-            if (refUnits != nullptr) {
-                auto requiredUnitsUnits = referencedUnits(model, refUnits);
+            // Units that are being followed already are part of a cyclic definition, do not follow them again.
+            if ((refUnits != nullptr) && (std::find(history.begin(), history.end(), refUnits) == history.end())) {
+                auto requiredUnitsUnits = referencedUnits(model, refUnits, history);
                 requiredUnits.insert(requiredUnits.end(), requiredUnitsUnits.begin(), requiredUnitsUnits.end());
                 requiredUnits.push_back(refUnits);
             }
         }
     }
+    history.pop_back();
 
     return requiredUnits;
+}
+
+std::vector<UnitsPtr> referencedUnits(const ModelPtr &model, const UnitsPtr &units)
+{
+    std::vector<UnitsPtr> history;
+
+    return referencedUnits(model, units, history);
 }
 
 std::vector<UnitsPtr> unitsUsed(const ModelPtr &model, const ComponentConstPtr &component)
